@@ -477,6 +477,7 @@ def run(ctx):
         xq = rng.normal(size=(5, 2))
         shapes[("DGradient", 5, 2, 3)] = tuple(np.asarray(pf.gradient(xq)).shape)
         shapes[("DHessian", 5, 2, 3)] = tuple(np.asarray(pf.hessian(xq)).shape)
+        shapes[("DHessLogDet", 5, 2, 3)] = tuple(np.asarray(pf.hessian_log_determinant(xq)[0]).shape)
         infof = fd.Info(pf)
         xqf = fd.query_points(np.random.default_rng(ctx.seed + 11), infof, Xf, 3 if not ctx.thorough else 6)
         for kcol in range(Yf.shape[1]):
